@@ -28,6 +28,18 @@ CLAIMED = {
         note=CORE_NOTE,
         technique='Coq proof by induction on hints (generated code = chk; sat implies chk) + translator-regenerated templates + differential correspondence',
         design='5/C01'),
+    'C02': dict(
+        text='Machine-checked (Coq 8.16.1) detection theorems over the sampled semantics chk, which the generated '
+             'code is proved to compute: wrong top-level class, fixed-tuple length and any unignorable position, '
+             'literal non-members, type[...] bounds, unions with no matching member and containers whose every '
+             'item violates are rejected for every draw; for sequences under random sampling the draw equal to '
+             'an index below 2^32 inspects exactly that item (reachability), with is_random=False item 0 is the '
+             'one inspected; accepted containers have emptiness or an accepted item; elided hints accept '
+             'everything. The unbounded reachability claim is machine-refuted (known finding F18). Structured '
+             'and random streams run through beartype and the model on every run.',
+        note=CORE_NOTE,
+        technique='Coq proofs about the sampled check semantics (all draws, Z arithmetic) + translator-regenerated templates + differential correspondence',
+        design='5/C02'),
     'C06': dict(
         text='Machine-checked refinement (Coq 8.16.1): the trie registry model answers every query, reports every '
              'per-call outcome and holds the path hook exactly as a flat longest-prefix specification does, for '
